@@ -134,6 +134,11 @@ func (w *Walker) walkFragment(it *ast.FragmentDefinition) {
 
 	it.Definition = def
 
+	// fragment variable definitions (experimental syntax) are linked to their types as well
+	for _, varDef := range it.VariableDefinition {
+		varDef.Definition = w.Schema.Types[varDef.Type.Name()]
+	}
+
 	w.walkDirectives(def, it.Directives, ast.LocationFragmentDefinition)
 	w.walkSelectionSet(def, it.SelectionSet)
 
